@@ -4,28 +4,48 @@ references, in which every object is reachable from `main` through earlier entri
 is the pure encoding of every registered object under the *final* naming. -/
 namespace GlueVerif.C02
 
-/-- pure encoding of a field value under a complete naming -/
-def encVal (reg : Reg) : Val → JVal
-  | .lit n => .lit n
-  | .str s => .str (stPrefix ++ s)
-  | .ref p => .str ((lookupName reg p).getD [])
-  | .own _ => .lit 0
+/-- pure encoding of a field value under a complete naming; `d` is the nesting depth left for inlined
+objects (the recursion fuel of `doObj`) -/
+def encVal (h : Heap) (reg : Reg) : Nat → Val → JVal
+  | _, .lit n => .lit n
+  | _, .str s => .str (stPrefix ++ s)
+  | _, .ref p => .str ((lookupName reg p).getD [])
+  | 0, .own _ => .lit 0
+  | d + 1, .own p =>
+    match h[p]? with
+    | none => .lit 0
+    | some ob => .obj ob.cls (ob.fields.map fun f => (f.phase, encVal h reg d f.val))
 
-def encFields (reg : Reg) (fs : List Field) : List (Phase × JVal) := fs.map fun f => (f.phase, encVal reg f.val)
+def encFields (h : Heap) (reg : Reg) (d : Nat) (fs : List Field) : List (Phase × JVal) :=
+  fs.map fun f => (f.phase, encVal h reg d f.val)
 
-def encObj (reg : Reg) (ob : Obj) : JVal := .obj ob.cls (encFields reg ob.fields)
+/-- the record of a named object: what `doObj h main (h.length + 1)` writes under the final naming -/
+def encObj (h : Heap) (reg : Reg) (ob : Obj) : JVal := .obj ob.cls (encFields h reg h.length ob.fields)
 
-def NoOwnFields (fs : List Field) : Prop := ∀ f ∈ fs, ∀ p, f.val ≠ .own p
+theorem encVal_own (h : Heap) (reg : Reg) (d p : Nat) (ob : Obj) (hob : h[p]? = some ob) :
+    encVal h reg (d + 1) (.own p) = .obj ob.cls (encFields h reg d ob.fields) := by
+  simp only [encVal, hob, encFields]
 
-def NoOwn (h : Heap) : Prop := ∀ ob ∈ h, NoOwnFields ob.fields
+/-- all references of a value — for an inlined object: of its whole sub-tree — are registered -/
+def RefsInV (h : Heap) (reg : Reg) : Nat → Val → Prop
+  | _, .lit _ => True
+  | _, .str _ => True
+  | _, .ref p => ∃ m, lookupName reg p = some m
+  | 0, .own _ => False
+  | d + 1, .own p => ∃ ob, h[p]? = some ob ∧ ∀ f ∈ ob.fields, RefsInV h reg d f.val
 
-/-- all references of `fs` are registered -/
-def RefsIn (reg : Reg) (fs : List Field) : Prop := ∀ f ∈ fs, ∀ p, f.val = .ref p → ∃ m, lookupName reg p = some m
+/-- all references of `fs` (and of the inlined sub-trees, to depth `d`) are registered -/
+def RefsIn (h : Heap) (reg : Reg) (d : Nat) (fs : List Field) : Prop := ∀ f ∈ fs, RefsInV h reg d f.val
 
-/-- every entry but `main` is referenced by an object registered *earlier* -/
+/-- `t` is referred to by name from `q` or from an object inlined (to depth `< d`) below `q` -/
+def RefInTree (h : Heap) : Nat → Nat → Nat → Prop
+  | 0, _, _ => False
+  | d + 1, q, t => ∃ ob, h[q]? = some ob ∧ ∃ f ∈ ob.fields, f.val = .ref t ∨ ∃ p, f.val = .own p ∧ RefInTree h d p t
+
+/-- every entry but `main` is referenced by an object registered *earlier* (or by an object inlined below it) -/
 def Reach (h : Heap) (main : Nat) (reg : Reg) : Prop :=
   ∀ pre e post, reg = pre ++ e :: post → e.1 = main ∨
-    ∃ q ∈ pre.map Prod.fst, ∃ ob, h[q]? = some ob ∧ ∃ f ∈ ob.fields, f.val = .ref e.1
+    ∃ q ∈ pre.map Prod.fst, RefInTree h (h.length + 1) q e.1
 
 theorem lookupName_append_new {reg : Reg} {o : Nat} (n : Str) (hn : lookupName reg o = none) :
     lookupName (reg ++ [(o, n)]) o = some n := by
@@ -53,7 +73,7 @@ theorem reach_init : Reach h main (initS main).reg := by
     cases pre' <;> simp at this
 
 theorem reach_snoc {reg : Reg} (hr : Reach h main reg) (p : Nat) (n : Str)
-    (hp : ∃ q ∈ reg.map Prod.fst, ∃ ob, h[q]? = some ob ∧ ∃ f ∈ ob.fields, f.val = .ref p) :
+    (hp : ∃ q ∈ reg.map Prod.fst, RefInTree h (h.length + 1) q p) :
     Reach h main (reg ++ [(p, n)]) := by
   intro pre e post he
   rcases List.eq_nil_or_concat post with hpost | ⟨post', x, hpost⟩
@@ -152,14 +172,20 @@ theorem reg_eq_of_sandwich {a b c : Reg} (h1 : a <+: b) (h2 : b <+: c) (h3 : c =
   subst h3
   exact (List.IsPrefix.eq_of_length_le h2 (List.IsPrefix.length_le h1))
 
-theorem doFields_fixed {doO : DoO} (hO : DoOExt main doO) :
-    ∀ (fs : List Field), NoOwnFields fs → ∀ (st st' : SState) (js : List (Phase × JVal)),
+/-- a successful `do` of an inlined object that registers nothing returns its pure encoding (to the
+depth `d` = the fuel of that `do`), and every reference of its sub-tree is registered -/
+def DoOFixed (d : Nat) (doO : DoO) : Prop :=
+  ∀ st p st' j, doO st p = .ok (st', j) → st'.reg = st.reg →
+    j = encVal h st.reg d (.own p) ∧ RefsInV h st.reg d (.own p)
+
+theorem doFields_fixed {doO : DoO} {d : Nat} (hO : DoOExt main doO) (hF : DoOFixed h d doO) :
+    ∀ (fs : List Field) (st st' : SState) (js : List (Phase × JVal)),
       doFields h main doO st fs = .ok (st', js) → st'.reg = st.reg →
-      js = encFields st.reg fs ∧ RefsIn st.reg fs
-  | [], _, st, st', js, hd, _ => by
+      js = encFields h st.reg d fs ∧ RefsIn h st.reg d fs
+  | [], st, st', js, hd, _ => by
     simp only [doFields, Except.ok.injEq, Prod.mk.injEq] at hd
     exact ⟨by rw [← hd.2]; rfl, by intro f hf; simp at hf⟩
-  | f :: fs, hno, st, st', js, hd, he => by
+  | f :: fs, st, st', js, hd, he => by
     unfold doFields at hd
     split at hd
     · cases hd
@@ -172,56 +198,69 @@ theorem doFields_fixed {doO : DoO} (hO : DoOExt main doO) :
         have e2 := doFields_ext h main hO fs st1 st2 js2 hfs
         have he2 : st2.reg = st.reg := by rw [hd.1]; exact he
         have h1 : st1.reg = st.reg := reg_eq_of_sandwich e1.pre e2.pre he2
-        have hno' : NoOwnFields fs := fun g hg => hno g (List.mem_cons_of_mem _ hg)
-        have ih := doFields_fixed hO fs hno' st1 st2 js2 hfs (by rw [he2, h1])
+        have ih := doFields_fixed hO hF fs st1 st2 js2 hfs (by rw [he2, h1])
         rw [h1] at ih
         -- the head field
-        have hj : j = encVal st.reg f.val ∧ (∀ p, f.val = .ref p → ∃ m, lookupName st.reg p = some m) := by
+        have hj : j = encVal h st.reg d f.val ∧ RefsInV h st.reg d f.val := by
           unfold doField at hf
           cases hv : f.val with
           | lit n =>
             rw [hv] at hf; simp only [Except.ok.injEq, Prod.mk.injEq] at hf
-            exact ⟨by rw [← hf.2]; rfl, by intro p hp; cases hp⟩
+            exact ⟨by rw [← hf.2]; simp only [encVal], by simp only [RefsInV]⟩
           | str s =>
             rw [hv] at hf; simp only [Except.ok.injEq, Prod.mk.injEq] at hf
-            exact ⟨by rw [← hf.2]; rfl, by intro p hp; cases hp⟩
+            exact ⟨by rw [← hf.2]; simp only [encVal], by simp only [RefsInV]⟩
           | ref p =>
             rw [hv] at hf; simp only [Except.ok.injEq, Prod.mk.injEq] at hf
             have sp := (idObj_spec h main st p).2.1
             rw [hf.1, h1] at sp
             refine ⟨?_, ?_⟩
             · rw [← hf.2]; simp only [encVal, sp, Option.getD_some]
-            · intro q hq; cases hq; exact ⟨_, sp⟩
-          | own p => exact absurd hv (hno f (List.mem_cons_self) p)
+            · simp only [RefsInV]; exact ⟨_, sp⟩
+          | own p =>
+            rw [hv] at hf
+            exact hF st p st1 j hf h1
         refine ⟨?_, ?_⟩
         · rw [← hd.2, ih.1, hj.1]; rfl
-        · intro g hg p hp
+        · intro g hg
           rcases List.mem_cons.mp hg with e | e
-          · subst e; exact hj.2 p hp
-          · exact ih.2 g e p hp
+          · subst e; exact hj.2
+          · exact ih.2 g e
 
-theorem doObj_fixed (hno : NoOwn h) (f : Nat) (st st' : SState) (o : Nat) (j : JVal)
-    (hd : doObj h main (f + 1) st o = .ok (st', j)) (he : st'.reg = st.reg) :
-    ∃ ob, h[o]? = some ob ∧ j = encObj st.reg ob ∧ RefsIn st.reg ob.fields := by
-  unfold doObj at hd
-  split at hd
-  · cases hd
-  · split at hd
+theorem doObj_fixed : ∀ (f : Nat), DoOFixed h f (doObj h main f)
+  | 0 => by intro st p st' j hd; simp [doObj] at hd
+  | f + 1 => by
+    intro st o st' j hd he
+    unfold doObj at hd
+    split at hd
     · cases hd
-    · rename_i ob hob
-      split at hd
+    · split at hd
       · cases hd
-      · rename_i st1 js hfs
-        simp only [Except.ok.injEq, Prod.mk.injEq] at hd
-        have hno' : NoOwnFields ob.fields := hno ob (List.mem_of_getElem? hob)
-        have he1 : st1.reg = st.reg := by rw [← he, ← hd.1]
-        have := doFields_fixed h main (doObj_ext h main f) ob.fields hno' _ _ _ hfs he1
-        exact ⟨ob, hob, by rw [← hd.2, this.1]; rfl, this.2⟩
+      · rename_i ob hob
+        split at hd
+        · cases hd
+        · rename_i st1 js hfs
+          simp only [Except.ok.injEq, Prod.mk.injEq] at hd
+          have he1 : st1.reg = st.reg := by rw [← he, ← hd.1]
+          have := doFields_fixed h main (doObj_ext h main f) (doObj_fixed f) ob.fields _ _ _ hfs he1
+          refine ⟨?_, ?_⟩
+          · rw [encVal_own h st.reg f o ob hob, ← hd.2, this.1]
+          · simp only [RefsInV]; exact ⟨ob, hob, this.2⟩
 
-theorem doPass_fixed (hno : NoOwn h) (fuel : Nat) : ∀ (items : Reg) (st st' : SState) (tbl : Table),
+/-- the table entry a pass writes for a registered object when it registers nothing -/
+theorem doObj_fixed_named (f : Nat) (st st' : SState) (o : Nat) (j : JVal)
+    (hd : doObj h main (f + 1) st o = .ok (st', j)) (he : st'.reg = st.reg) :
+    ∃ ob, h[o]? = some ob ∧ j = .obj ob.cls (encFields h st.reg f ob.fields) ∧ RefsIn h st.reg f ob.fields := by
+  obtain ⟨h1, h2⟩ := doObj_fixed h main (f + 1) st o st' j hd he
+  simp only [RefsInV] at h2
+  obtain ⟨ob, hob, h3⟩ := h2
+  exact ⟨ob, hob, by rw [h1, encVal_own h st.reg f o ob hob], h3⟩
+
+theorem doPass_fixed (fuel : Nat) : ∀ (items : Reg) (st st' : SState) (tbl : Table),
     doPass h main (fuel + 1) st items = .ok (st', tbl) → st'.reg = st.reg →
     tbl.map Prod.fst = items.map Prod.snd ∧
-      ∀ o n, (o, n) ∈ items → ∃ ob, h[o]? = some ob ∧ (n, encObj st.reg ob) ∈ tbl ∧ RefsIn st.reg ob.fields
+      ∀ o n, (o, n) ∈ items → ∃ ob, h[o]? = some ob ∧ (n, .obj ob.cls (encFields h st.reg fuel ob.fields)) ∈ tbl ∧
+        RefsIn h st.reg fuel ob.fields
   | [], st, st', tbl, hd, _ => by
     simp only [doPass, Except.ok.injEq, Prod.mk.injEq] at hd
     rw [← hd.2]; exact ⟨rfl, by intro o n hm; simp at hm⟩
@@ -238,9 +277,9 @@ theorem doPass_fixed (hno : NoOwn h) (fuel : Nat) : ∀ (items : Reg) (st st' : 
         have e2 := doPass_ext h main (fuel + 1) rest st1 st2 js hr
         have he2 : st2.reg = st.reg := by rw [hd.1]; exact he
         have h1 : st1.reg = st.reg := reg_eq_of_sandwich e1.pre e2.pre he2
-        have ih := doPass_fixed hno fuel rest st1 st2 js hr (by rw [he2, h1])
+        have ih := doPass_fixed fuel rest st1 st2 js hr (by rw [he2, h1])
         rw [h1] at ih
-        have hob := doObj_fixed h main hno fuel st st1 o j ho h1
+        have hob := doObj_fixed_named h main fuel st st1 o j ho h1
         refine ⟨by rw [← hd.2]; simp [ih.1], ?_⟩
         intro o' n' hm
         rcases List.mem_cons.mp hm with e | e
@@ -253,14 +292,21 @@ theorem doPass_fixed (hno : NoOwn h) (fuel : Nat) : ∀ (items : Reg) (st st' : 
 
 /-! ### reachability is preserved -/
 
-theorem doFields_reach {doO : DoO} (q : Nat) (ob : Obj) (hq : h[q]? = some ob) :
-    ∀ (fs : List Field), NoOwnFields fs → (∀ f ∈ fs, f ∈ ob.fields) → ∀ (st st' : SState) (js : List (Phase × JVal)),
+/-- whatever a `do` of the inlined object `p` (fuel `d`) registers is referred to from the tree of `p` -/
+def DoOReach (d : Nat) (doO : DoO) : Prop :=
+  ∀ st p st' j, doO st p = .ok (st', j) → ∀ q, q ∈ st.reg.map Prod.fst →
+    (∀ t, RefInTree h d p t → RefInTree h (h.length + 1) q t) →
+    Reach h main st.reg → q ∈ st'.reg.map Prod.fst ∧ Reach h main st'.reg
+
+theorem doFields_reach {doO : DoO} {d : Nat} (hR : DoOReach h main d doO) (q : Nat) (cur : Nat) (ob : Obj)
+    (hcur : h[cur]? = some ob) (hemb : ∀ t, RefInTree h (d + 1) cur t → RefInTree h (h.length + 1) q t) :
+    ∀ (fs : List Field), (∀ f ∈ fs, f ∈ ob.fields) → ∀ (st st' : SState) (js : List (Phase × JVal)),
       doFields h main doO st fs = .ok (st', js) → q ∈ st.reg.map Prod.fst → Reach h main st.reg →
-      Reach h main st'.reg
-  | [], _, _, st, st', js, hd, _, hr => by
+      q ∈ st'.reg.map Prod.fst ∧ Reach h main st'.reg
+  | [], _, st, st', js, hd, hqin, hr => by
     simp only [doFields, Except.ok.injEq, Prod.mk.injEq] at hd
-    rw [← hd.1]; exact hr
-  | f :: fs, hno, hsub, st, st', js, hd, hqin, hr => by
+    rw [← hd.1]; exact ⟨hqin, hr⟩
+  | f :: fs, hsub, st, st', js, hd, hqin, hr => by
     unfold doFields at hd
     split at hd
     · cases hd
@@ -270,8 +316,8 @@ theorem doFields_reach {doO : DoO} (q : Nat) (ob : Obj) (hq : h[q]? = some ob) :
       · rename_i st2 js2 hfs
         simp only [Except.ok.injEq, Prod.mk.injEq] at hd
         rw [← hd.1]
-        have hno' : NoOwnFields fs := fun g hg => hno g (List.mem_cons_of_mem _ hg)
         have hsub' : ∀ g ∈ fs, g ∈ ob.fields := fun g hg => hsub g (List.mem_cons_of_mem _ hg)
+        have hfm : f ∈ ob.fields := hsub f List.mem_cons_self
         have step : q ∈ st1.reg.map Prod.fst ∧ Reach h main st1.reg := by
           unfold doField at hf
           cases hv : f.val with
@@ -284,28 +330,37 @@ theorem doFields_reach {doO : DoO} (q : Nat) (ob : Obj) (hq : h[q]? = some ob) :
             · rw [e]; exact ⟨hqin, hr⟩
             · rw [e]
               refine ⟨by simp only [List.map_append, List.mem_append]; exact Or.inl hqin, ?_⟩
-              exact reach_snoc h main hr p n ⟨q, hqin, ob, hq, f, hsub f List.mem_cons_self, hv⟩
-          | own p => exact absurd hv (hno f List.mem_cons_self p)
-        exact doFields_reach q ob hq fs hno' hsub' st1 st2 js2 hfs step.1 step.2
+              refine reach_snoc h main hr p n ⟨q, hqin, hemb p ?_⟩
+              simp only [RefInTree]
+              exact ⟨ob, hcur, f, hfm, Or.inl hv⟩
+          | own p =>
+            rw [hv] at hf
+            refine hR st p st1 j hf q hqin ?_ hr
+            intro t ht
+            apply hemb
+            simp only [RefInTree]
+            exact ⟨ob, hcur, f, hfm, Or.inr ⟨p, hv, ht⟩⟩
+        exact doFields_reach hR q cur ob hcur hemb fs hsub' st1 st2 js2 hfs step.1 step.2
 
-theorem doObj_reach (hno : NoOwn h) (f : Nat) (st st' : SState) (o : Nat) (j : JVal)
-    (hd : doObj h main (f + 1) st o = .ok (st', j)) (ho : o ∈ st.reg.map Prod.fst)
-    (hr : Reach h main st.reg) : Reach h main st'.reg := by
-  unfold doObj at hd
-  split at hd
-  · cases hd
-  · split at hd
+theorem doObj_reach : ∀ (f : Nat), DoOReach h main f (doObj h main f)
+  | 0 => by intro st p st' j hd; simp [doObj] at hd
+  | f + 1 => by
+    intro st o st' j hd q hqin hemb hr
+    unfold doObj at hd
+    split at hd
     · cases hd
-    · rename_i ob hob
-      split at hd
+    · split at hd
       · cases hd
-      · rename_i st1 js hfs
-        simp only [Except.ok.injEq, Prod.mk.injEq] at hd
-        rw [← hd.1]
-        exact doFields_reach h main o ob hob ob.fields (hno ob (List.mem_of_getElem? hob)) (fun _ hf => hf)
-          { st with working := o :: st.working } st1 js hfs ho hr
+      · rename_i ob hob
+        split at hd
+        · cases hd
+        · rename_i st1 js hfs
+          simp only [Except.ok.injEq, Prod.mk.injEq] at hd
+          rw [← hd.1]
+          exact doFields_reach h main (doObj_reach f) q o ob hob hemb ob.fields (fun _ hf => hf)
+            { st with working := o :: st.working } st1 js hfs hqin hr
 
-theorem doPass_reach (hno : NoOwn h) (fuel : Nat) : ∀ (items : Reg) (st st' : SState) (tbl : Table),
+theorem doPass_reach (fuel : Nat) (hfuel : fuel = h.length) : ∀ (items : Reg) (st st' : SState) (tbl : Table),
     doPass h main (fuel + 1) st items = .ok (st', tbl) → (∀ e ∈ items, e.1 ∈ st.reg.map Prod.fst) →
     Reach h main st.reg → Reach h main st'.reg
   | [], st, st', tbl, hd, _, hr => by
@@ -321,9 +376,10 @@ theorem doPass_reach (hno : NoOwn h) (fuel : Nat) : ∀ (items : Reg) (st st' : 
       · rename_i st2 js hr2
         simp only [Except.ok.injEq, Prod.mk.injEq] at hd
         rw [← hd.1]
-        have r1 := doObj_reach h main hno fuel st st1 o j ho (hin (o, n) List.mem_cons_self) hr
+        have r1 := (doObj_reach h main (fuel + 1) st o st1 j ho o (hin (o, n) List.mem_cons_self)
+          (by intro t ht; rw [← hfuel]; exact ht) hr).2
         have e1 := doObj_ext h main (fuel + 1) _ _ _ _ ho
-        refine doPass_reach hno fuel rest st1 st2 js hr2 ?_ r1
+        refine doPass_reach fuel hfuel rest st1 st2 js hr2 ?_ r1
         intro e he
         have := hin e (List.mem_cons_of_mem _ he)
         obtain ⟨t, ht⟩ := e1.pre
@@ -340,15 +396,15 @@ structure Between (st : SState) : Prop where
 theorem between_init : Between h main (initS main) :=
   ⟨regOk_init main, reach_init h main, rfl⟩
 
-theorem between_pass (hno : NoOwn h) (fuel : Nat) {st st' : SState} {tbl : Table} (hb : Between h main st)
-    (hp : doPass h main (fuel + 1) st st.reg = .ok (st', tbl)) : Between h main st' :=
+theorem between_pass {st st' : SState} {tbl : Table} (hb : Between h main st)
+    (hp : doPass h main (h.length + 1) st st.reg = .ok (st', tbl)) : Between h main st' :=
   ⟨(doPass_ext h main _ _ _ _ _ hp).ok hb.regOk,
-   doPass_reach h main hno fuel _ _ _ _ hp (fun e he => List.mem_map.mpr ⟨e, he, rfl⟩) hb.reach,
+   doPass_reach h main h.length rfl _ _ _ _ hp (fun e he => List.mem_map.mpr ⟨e, he, rfl⟩) hb.reach,
    by rw [doPass_work h main _ _ _ _ _ hp, hb.idle]⟩
 
-theorem doAll_last (hno : NoOwn h) (fuel : Nat) : ∀ (k : Nat) (st st' : SState) (tbl : Table),
-    Between h main st → doAll h main (fuel + 1) k st = .ok (st', tbl) →
-    ∃ st0, Between h main st0 ∧ doPass h main (fuel + 1) st0 st0.reg = .ok (st', tbl) ∧ st'.reg = st0.reg
+theorem doAll_last : ∀ (k : Nat) (st st' : SState) (tbl : Table),
+    Between h main st → doAll h main (h.length + 1) k st = .ok (st', tbl) →
+    ∃ st0, Between h main st0 ∧ doPass h main (h.length + 1) st0 st0.reg = .ok (st', tbl) ∧ st'.reg = st0.reg
   | 0, st, st', tbl, _, hd => by simp [doAll] at hd
   | k + 1, st, st', tbl, hb, hd => by
     unfold doAll at hd
@@ -361,15 +417,15 @@ theorem doAll_last (hno : NoOwn h) (fuel : Nat) : ∀ (k : Nat) (st st' : SState
         refine ⟨st, hb, by rw [← hd.1, ← hd.2]; exact hp, ?_⟩
         rw [← hd.1]
         exact (List.IsPrefix.eq_of_length (doPass_ext h main _ _ _ _ _ hp).pre hlen.symm).symm
-      · exact doAll_last hno fuel k st1 st' tbl (between_pass h main hno fuel hb hp) hd
+      · exact doAll_last k st1 st' tbl (between_pass h main hb hp) hd
 
-/-- **What the serializer produces** (graphs without inlined objects). -/
-theorem serialize_spec (hno : NoOwn h) {st : SState} {T : Table} (hs : serialize h main = .ok (st, T)) :
+/-- **What the serializer produces** (any graph: named references and inlined records). -/
+theorem serialize_spec {st : SState} {T : Table} (hs : serialize h main = .ok (st, T)) :
     RegOk main st.reg ∧ Reach h main st.reg ∧ T.map Prod.fst = st.reg.map Prod.snd ∧
-      ∀ o n, (o, n) ∈ st.reg → ∃ ob, h[o]? = some ob ∧ (n, encObj st.reg ob) ∈ T ∧ RefsIn st.reg ob.fields := by
-  obtain ⟨st0, hb, hp, he⟩ := doAll_last h main hno h.length _ _ _ _ (between_init h main) hs
-  have hb' := between_pass h main hno h.length hb hp
-  have := doPass_fixed h main hno h.length st0.reg st0 st T hp he
+      ∀ o n, (o, n) ∈ st.reg → ∃ ob, h[o]? = some ob ∧ (n, encObj h st.reg ob) ∈ T ∧ RefsIn h st.reg h.length ob.fields := by
+  obtain ⟨st0, hb, hp, he⟩ := doAll_last h main _ _ _ _ (between_init h main) hs
+  have hb' := between_pass h main hb hp
+  have := doPass_fixed h main h.length st0.reg st0 st T hp he
   rw [← he] at this
   exact ⟨hb'.regOk, hb'.reach, this.1, this.2⟩
 
